@@ -659,7 +659,7 @@ func (em *emitter) emitCallNode(call *ast.Call, goStmt bool, deferStmt bool, toF
 			numVar = numArgs - (funTi.Type.NumIn() - 1)
 		}
 		if deferStmt {
-			args := em.fb.currentStackShift()
+			args := stackDifference(em.fb.currentStackShift(), stackShift)
 			reg := em.fb.newRegister(reflect.Func)
 			em.fb.emitLoadFunc(true, index, reg)
 			em.fb.emitDefer(reg, int8(numVar), stackShift, args, funTi.Type)
